@@ -28,6 +28,7 @@ def main(tier, seed):
     tp = tier_params(tier)
     rep = Report(PROP, tier, seed)
     sess = Session(tp["timeout"])
+    sess.keep_smt2 = tier == "thorough"
     dims = [1, 2] if tier == "quick" else [1, 2, 3]
     rep.bounds = {"action_dims": dims, "cem": "population 2-3 x dims 1-2", "values": "all real network outputs, bounds low<high, noise levels >= 0, any key"}
     rep.assumptions = ["real-number semantics (rounding at the bound itself outside the claim, as the property allows)",
